@@ -1,34 +1,61 @@
 (* C03 — full backward pass reconstructs interior fields despite absorbing layers.
-   Model: model/Yee.v (CPML in curlE/curlH, backward_rec = add_interfaces + reverse updates + field reset). *)
-From Coq Require Import List Arith Bool.
-From FV Require Import base.Scalar base.Cplx model.Yee model.YeeExec proofs.Yee_pml_basic proofs.Yee_reverse.
+   Model: model/Yee.v (CPML loop in curlE/curlH, backward_rec = add_interfaces + reverse updates + field reset);
+   lemmas: proofs/Yee_pml_loop.v, proofs/Yee_pml_sweep.v *)
+From Coq Require Import List Arith Bool QArith Qcanon.
+From FV Require Import base.Scalar base.Cplx model.Yee model.YeeExec proofs.Yee_reverse proofs.Yee_pml_basic proofs.Yee_pml_sweep.
 Import ListNotations.
 
-(* PARTIAL (see DESIGN.md §4 C03): proved here are the frame facts of the reverse sweep — restoration writes
-   exactly the interface rows, the reset zeroes exactly the layer cells, interface rows lie inside their layer,
-   and without layers the recording backward step is the plain backward step (whose exact inversion is C02).
-   The invariant "agreement on every cell outside all layers at every step of the sweep" is decided by the
-   correspondence + implementation predicate of the check, not yet by a Coq theorem. *)
-Theorem C03_restore_writes_interface_partial : forall (K : Fld) (sc : scene K) r f i j k,
+(* For every scene of the model (any grid, iso/diagonal materials with conductivities such that 1+-f <> 0, 0/1 wall masks, any source
+   injections, any number and placement of CPML layers) whose layers have kappa = 1 and a = 0 on their interface row (default grading,
+   theorem C12_a_zero_at_interface) and whose layer geometry passes `geometry_ok` (every cell outside the layers has its curl stencil
+   inside the interior plus restored interface rows; checked by `geometry_okb` for every scene the correspondence runs):
+   starting from a wall-compatible state F0 at step 0 with zero psi on interface rows, recording the interface fields of the forward
+   run of T steps and sweeping backward j <= T steps with restoration and reset reproduces, on EVERY cell outside all layers, the
+   E and H fields of the forward run at step T - j; the psi state is not touched. *)
+Theorem C03_reverse_sweep_interior : forall (K : Fld) (sc : scene K),
+  (forall p, In p (pmls K sc) -> p_kappa1 K p = true) ->
+  (forall p, In p (pmls K sc) -> forall i j k, in_iface K p i j k = true ->
+       p_aE K p (pml_depth K p i j k) = f0 K /\ p_aH K p (pml_depth K p i j k) = f0 K) ->
+  forall wrapx wrapy wrapz : bool,
+  (wrapx = false -> hix K sc = c0 /\ lox K sc = c0) -> (wrapy = false -> hiy K sc = c0 /\ loy K sc = c0) -> (wrapz = false -> hiz K sc = c0 /\ loz K sc = c0) ->
+  cells_ok K sc -> geometry_ok K sc wrapx wrapy wrapz ->
+  forall F0 T, wall_compatible K sc F0 -> psi_zero K sc (psiE F0) -> psi_zero K sc (psiH F0) -> tstep F0 = O ->
+  let rec := fun t => (fE (traj K sc F0 (S t)), fH (traj K sc F0 (S t))) in
+  forall j, (j <= T)%nat ->
+  let R := rsweep K sc rec j (traj K sc F0 T) in
+  tstep R = (T - j)%nat /\
+  agrees K sc (fE R) (fE (traj K sc F0 (T - j))) (inI K sc) /\ agrees K sc (fH R) (fH (traj K sc F0 (T - j))) (inI K sc) /\
+  psiE R = psiE (traj K sc F0 T) /\ psiH R = psiH (traj K sc F0 T).
+Proof. exact reverse_sweep_interior. Qed.
+Print Assumptions C03_reverse_sweep_interior.
+
+(* the geometry hypothesis is decidable; the boolean check is sound *)
+Theorem C03_geometry_check_sound : forall (K : Fld) (sc : scene K) wrapx wrapy wrapz,
+  geometry_okb K sc wrapx wrapy wrapz = true -> geometry_ok K sc wrapx wrapy wrapz.
+Proof. exact geometry_okb_sound. Qed.
+Print Assumptions C03_geometry_check_sound.
+
+(* frame facts of restoration / reset, and the layer-free case *)
+Theorem C03_restore_writes_interface : forall (K : Fld) (sc : scene K) r f i j k,
   (is_iface K sc i j k = true -> restoreA K sc r f i j k = r i j k) /\
   (is_iface K sc i j k = false -> restoreA K sc r f i j k = f i j k).
 Proof. intros; split; [apply restoreA_iface | apply restoreA_other]. Qed.
-Print Assumptions C03_restore_writes_interface_partial.
-
-Theorem C03_reset_zeroes_layers_partial : forall (K : Fld) (sc : scene K) f i j k,
+Theorem C03_reset_zeroes_layers : forall (K : Fld) (sc : scene K) f i j k,
   (in_any_pml K sc i j k = true -> resetA K sc f i j k = c0) /\
   (in_any_pml K sc i j k = false -> resetA K sc f i j k = f i j k).
 Proof. intros; split; [apply resetA_pml | apply resetA_interior]. Qed.
-Print Assumptions C03_reset_zeroes_layers_partial.
 
-Theorem C03_interface_inside_layer_partial : forall (K : Fld) (sc : scene K) i j k,
-  is_iface K sc i j k = true -> in_any_pml K sc i j k = true.
-Proof. exact iface_in_pml. Qed.
-Print Assumptions C03_interface_inside_layer_partial.
-
-Theorem C03_no_layers_is_plain_backward_partial : forall (K : Fld) (sc : scene K) rec s,
-  pmls K sc = [] -> forall i j k,
-  vx (fE (backward_rec K sc rec s)) i j k = vx (fE (backward K sc s)) i j k /\
-  vx (fH (backward_rec K sc rec s)) i j k = vx (fH (backward K sc s)) i j k.
-Proof. exact backward_rec_nopml. Qed.
-Print Assumptions C03_no_layers_is_plain_backward_partial.
+(* ---- non-vacuity: CPML slabs of thickness 2 on both z faces and the max y face of a 3x5x7 box (x periodic) pass the geometry check ---- *)
+Definition zK : nat -> car QcF := fun _ => 0%Qc.
+Definition slab (axis : nat) (minus : bool) x0 x1 y0 y1 z0 z1 : pml QcF := mkPml QcF axis minus x0 x1 y0 y1 z0 z1 zK zK zK zK zK zK true.
+Definition one3 : R3 QcF := fun _ _ _ => 1%Qc.
+Definition zero3 : R3 QcF := fun _ _ _ => 0%Qc.
+Definition ex_scene : scene QcF :=
+  mkScene QcF 3 5 7 (1%Qc, 0%Qc) (0%Qc, 0%Qc) (0%Qc, 0%Qc) (1%Qc, 0%Qc) (0%Qc, 0%Qc) (0%Qc, 0%Qc)
+    (fun _ => 1%Qc) (fun _ => 1%Qc) (fun _ => 1%Qc) 1%Qc
+    (mkM one3 one3 one3) (mkM one3 one3 one3) (mkM zero3 zero3 zero3) (mkM zero3 zero3 zero3)
+    (q 377 1) (q 1 2) (mkM one3 one3 one3) (mkM one3 one3 one3)
+    [slab 1 false 0 3 3 5 0 7; slab 2 true 0 3 0 5 0 2; slab 2 false 0 3 0 5 5 7]
+    (fun _ => vzero QcF) (fun _ => vzero QcF).
+Example C03_nonvacuous : geometry_ok QcF ex_scene true false false /\ inI QcF ex_scene 1 1 3 = true.
+Proof. split; [apply geometry_okb_sound; vm_compute; reflexivity | vm_compute; reflexivity]. Qed.
